@@ -46,6 +46,11 @@ var c12Reqs = []c12Req{
 	{"e-errors", `{ leafy { s sNN i } x1 a { items(n:2) { n label } } }`, nil, map[string]string{"R@leafy.s": FErr, "R@leafy.i": FPanicStr, "R@a.items.1.label": FErr, "R@x1": FValErr}, "failing", nil},
 	{"e-deferred-errors", `{ x1 x2 x3 x4 x5 x6 }`, nil, map[string]string{"R@x1": FThunkErr, "R@x2": FThunkErr, "R@x3": FThunkPanic, "R@x4": FThunkErr, "R@x5": FThunkNil, "R@x6": FThunkErr}, "failing", nil},
 	{"e-deferred-nested", `{ leafy { s i f b id } a { name aOnly } }`, nil, map[string]string{"R@leafy.s": FThunkErr, "R@leafy.i": FThunkErr, "R@leafy.f": FThunkErr, "R@leafy.b": FThunkErr, "R@a.name": FThunkErr, "R@a.aOnly": FThunkPanic, "R@a": FThunk}, "failing", nil},
+	{"e-deferred-grandchildren", `{ leafy { s i } a { name aOnly } b { bOnly name } }`, nil, map[string]string{"R@leafy.s": FThunkErr, "R@leafy.i": FThunkErr, "R@a.name": FThunkErr, "R@a.aOnly": FThunkPanic, "R@b.bOnly": FThunkErr, "R@b.name": FThunkErr}, "failing", nil},
+	{"v-dirvar-true", `query($s:Boolean!){ x1 @skip(if:$s) x2 ... @include(if:$s) { x3 } }`, map[string]interface{}{"s": true}, nil, "valid", nil},
+	{"v-dirvar-false", `query($s:Boolean!){ x1 @skip(if:$s) x2 ... @include(if:$s) { x3 } }`, map[string]interface{}{"s": false}, nil, "valid", nil},
+	{"i-overlap-conflicts", `{ leafy { v: s w: i k: b z: f } leafy { v: i w: s z: id } a { n: name } a { n: id } }`, nil, nil, "invalid", nil},
+	{"i-overlap-nested", `{ b { nn { p: s q: i } } b { nn { p: i q: s r: f } } ...F } fragment F on Query { b { nn { q: f } } }`, nil, nil, "invalid", nil},
 	{"e-mutation-deferred", `mutation { s1(v:1) s2(v:2) m1(v:3) { id name bOnly } }`, nil, map[string]string{"R@s1": FThunkErr, "R@s2": FThunkErr, "R@m1.id": FThunk, "R@m1.name": FThunkErr, "R@m1.bOnly": FThunkErr}, "failing", nil},
 	{"e-abstract", `{ nodes(n:3) { id } node { id } u { ... on A { aOnly } } }`, nil, map[string]string{"RT@node": FRTNil, "IT@u": FITFalse}, "failing", nil},
 	{"x-ext-resolve-finish", `{ x1 x2 }`, nil, nil, "failing", map[string]string{"E1.RE": "error", "E2.RE": "string", "E3.RE": "error"}},
